@@ -87,7 +87,9 @@ def oracle(case, recs) -> tuple[list[Violation], dict]:
                     info["exempt_used"] += 1
                     continue
                 if r.mem.get(reg) != safe:
-                    src = "error-pause" if r.status == "Error" else ("command-running" if reg in cmd_set_in_pause else "other")
+                    # mechanism first: a register a UOD command wrote during this pause is 'command-running' whatever the
+                    # (sticky) Method Status says; 'error-pause' is an error pause in which no command touched the register
+                    src = "command-running" if reg in cmd_set_in_pause else ("error-pause" if r.status == "Error" else "other")
                     viol("unsafe:paused:%s" % src, "tick %d: Paused but hardware %s=%r, safe value is %r (method status %s)"
                          % (r.no, reg, r.mem.get(reg), safe, r.status))
         elif r.state != "Paused":
